@@ -65,6 +65,8 @@ def make_vocab(tt):
     for s in specs:
         for ref in (0, 1):
             toks.append(dict(kind="P", ref=ref, spec=s))
+    toks.append(dict(kind="PN"))   # placeholder whose type failed to parse (no AliasInfo / AliasInfo without a type:
+    toks.append(dict(kind="PN"))   # triex alternates the two flavours by vocabulary index)
     return toks
 
 
@@ -72,6 +74,8 @@ def py_tok_eq(a, b):
     """the property's notion: same token kind; placeholders: same parameter type; literal kinds: same literal"""
     if a["kind"] != b["kind"]:
         return False
+    if a["kind"] == "PN":
+        return True
     if a["kind"] == "P":
         return a["ref"] == b["ref"] and canon(a["spec"]) == canon(b["spec"])
     if a["tt"] != b["tt"]:
@@ -90,6 +94,8 @@ def vocab_lines(toks, ranks=None):
     for i, t in enumerate(toks):
         if t["kind"] == "T":
             ls.append("T %d %d %s" % (i, t["tt"], t["lit"].encode().hex()))
+        elif t["kind"] == "PN":
+            ls.append("PN %d" % i)
         else:
             ls.append("P %d %d %s" % (i, t["ref"], t["spec"]))
             if ranks is not None:
@@ -180,12 +186,12 @@ def conforms(spec, got):
 
 def gen_histories(ck, toks, n_random):
     rng = ck.rng
-    P = [i for i, t in enumerate(toks) if t["kind"] == "P"]
+    P = [i for i, t in enumerate(toks) if t["kind"] in ("P", "PN")]
     T = [i for i, t in enumerate(toks) if t["kind"] == "T"]
-    alike = [i for i in P if "Punkt" in toks[i]["spec"]]
+    alike = [i for i in P if "Punkt" in toks[i].get("spec", "")]
     hists = []
     # exhaustive small: every insertion order of every 4-subset of the print-alike pool (value placeholders), prefix token shared
-    pool = [i for i in alike if toks[i]["ref"] == 0][:7]
+    pool = [i for i in alike if toks[i].get("ref", 1) == 0][:7]
     sub_sz = 4 if ck.quick else 5
     for sub in itertools.combinations(pool, sub_sz):
         for perm in itertools.permutations(sub):
@@ -200,7 +206,7 @@ def gen_histories(ck, toks, n_random):
     # exhaustive small: pairs of placeholders that are EQUAL though spelled differently (type alias vs. its target,
     # also inside lists) among every choice of 2..3 other sibling placeholders, every insertion order: the second
     # spelling must be rejected as a duplicate and must find the first one's value
-    vals = [i for i in P if toks[i]["ref"] == 0]
+    vals = [i for i in P if toks[i].get("ref", 1) == 0]
     eqpairs = [(a, c) for a in vals for c in vals if a != c and py_tok_eq(toks[a], toks[c])]
     others = [i for i in vals if toks[i]["spec"] in ("Z", "T", "K", "C", "B", "SPunkt#1", "L(T)", "DPunkt#6(Z)")]
     for (a, c) in eqpairs:
